@@ -60,6 +60,7 @@ TNext ==
          [] e.ev = "round_end" -> /\ Bad(RoundEndReasons \cup BatchReasons(fault.b)) /\ UNCHANGED <<reqs, roots, totals, fault, pubq>>
          [] e.ev = "hc_round" -> /\ Bad(IF e.ok200 = e.conns /\ e.connected = e.conns THEN {} ELSE {"health_check_unanswered"})
                                  /\ UNCHANGED <<reqs, roots, totals, fault, pubq>>
+         [] e.ev = "clock_step" -> UNCHANGED <<reqs, roots, totals, fault, pubq>>    \* the wall clock jumped by e.secs (the replies' time_ok is judged against the stepped clock)
          [] e.ev = "log" -> /\ Bad(IF e.leak THEN {"leak_in_log"} ELSE {}) /\ UNCHANGED <<reqs, roots, totals, fault, pubq>>
          [] e.ev = "stats" ->
               \* a valid request whose response could not be sent (unroutable source) counts as valid and as ONE failed send
